@@ -1,4 +1,6 @@
 import DG.Proto
+import DG.JsrVersion
+import DG.Decode
 /-! Line-protocol driver: one request per line on stdin, one answer per line on stdout. -/
 open DG DG.Sexp
 
@@ -41,6 +43,63 @@ def handle (st : DState) (req : Sexp) : DState × String :=
     match walkOpts? k fd cj pfc, nats? rs with
     | some o, some rs => (st, joinSp ((st.graph.errors o rs).map ErrOut.show))
     | _, _ => (st, "bad-op")
+  | .list [.atom "jsr", .list (.atom "sat" :: sats), cutoff, .list (.atom "infos" :: infos),
+           .list (.atom "existing" :: ex), .list (.atom "cached" :: ca)] =>
+    let optNat : Sexp → Option (Option Nat) := fun
+      | .atom "-" => some none
+      | x => (nat? x).map some
+    let info? : Sexp → Option (Nat × DG.Jsr.VInfo) := fun
+      | .list [v, y, c] => do
+        pure ((← nat? v), { yanked := ← bool? y, createdAt := ← optNat c })
+      | _ => none
+    match nats? sats, optNat cutoff, infos.mapM info?, nats? ex, nats? ca with
+    | some sats, some cutoff, some infos, some ex, some ca =>
+      match DG.Jsr.resolveTiers (fun v => sats.contains v) cutoff infos ex ca with
+      | .ok v y => (st, s!"ok {v} {if y then 1 else 0}")
+      | .notFound d => (st, s!"notfound {showOptNat d}")
+    | _, _, _, _, _ => (st, "bad-op")
+  | .list [.atom "cutofffor", date, .list (.atom "excl" :: ex), .list (.atom "pref" :: pf), .atom name] =>
+    let optNat : Sexp → Option (Option Nat) := fun
+      | .atom "-" => some none
+      | x => (nat? x).map some
+    let strs : List Sexp → Option (List (List Char)) := fun l => l.mapM fun
+      | .atom a => some a.toList
+      | _ => none
+    match optNat date, strs ex, strs pf with
+    | some d, some ex, some pf => (st, showOptNat (DG.Jsr.cutoffFor d ex pf name.toList))
+    | _, _, _ => (st, "bad-op")
+  | .list [.atom "decode", hdr, isFile, .list (.atom "bytes" :: bs), conv] =>
+    -- conv: what encoding_rs answered for a non-modelled label ("-" when not applicable)
+    let hex (l : List UInt8) : String :=
+      String.join (l.map fun b =>
+        let n := b.toNat
+        let d (k : Nat) : Char := if k < 10 then Char.ofNat (48 + k) else Char.ofNat (87 + k)
+        String.ofList [d (n / 16), d (n % 16)])
+    let charset? : Sexp → Option (Option DG.Decode.Charset) := fun
+      | .atom "-" => some none
+      | .atom "utf8" => some (some .utf8)
+      | .atom "utf16le" => some (some .utf16le)
+      | .atom "utf16be" => some (some .utf16be)
+      | .atom "unsupported" => some (some .unsupported)
+      | .atom "other" => some (some (.other 0))
+      | _ => none
+    let conv? : Sexp → Option DG.Decode.Conv := fun
+      | .atom "-" => some .err
+      | .atom "borrowed" => some .borrowed
+      | .list (.atom "owned" :: cs) => (nats? cs).map .owned
+      | _ => none
+    match charset? hdr, bool? isFile, nats? bs, conv? conv with
+    | some h, some f, some bs, some cv =>
+      let bytes := bs.map UInt8.ofNat
+      match DG.Decode.newSource (fun _ _ => cv) h f bytes with
+      | none => (st, "err")
+      | some (text, k) =>
+        let ks := match k with | .unchanged => "unchanged" | .changed => "changed" | .onlyUtf8Bom => "bom"
+        let orig := match DG.Decode.tryGetOriginalBytes text k with
+          | some o => hex o
+          | none => "-"
+        (st, s!"{ks} text={hex text} orig={orig} size={DG.Decode.size text}")
+    | _, _, _, _ => (st, "bad-op")
   | .list [.atom "valid"] =>
     (st, match st.graph.valid with | some e => e.show | none => "ok")
   | _ => (st, "bad-op")
